@@ -56,7 +56,7 @@ impl RefHasher {
 }
 
 pub trait HK: Send + Sync + 'static {
-    type D: Digest + digest::FixedOutput + Clone + Send;
+    type D: Digest + digest::FixedOutput + Clone + Send + Sync;
     const NAME: &'static str;
     const FAMILY: Family;
     const BITS: usize;
